@@ -46,7 +46,10 @@ Inductive event :=
 | EvInline (f : selection) (objdef : option definition)
 | EvSpread (f : selection) (objdef : option definition)
 | EvOperation (o : opdef) (used : list bool)
-| EvFragment (f : fragdef).
+| EvFragment (f : fragdef)
+(* not an observer call: the walker has just written its annotations (ObjectDefinition, Definition)
+   on the field or spread starting at this offset *)
+| EvAnnotate (start : Z).
 
 (* an event with walker.CurrentOperation and the operation whose variable definitions are
    currently written on variable uses (during a stand-alone fragment walk: the last operation
@@ -128,7 +131,7 @@ Section Walk.
                               (match fd with Some x => find_argdef a.(a_name) x.(fd_args) | None => None end) a) args in
            let st1 := mkWst st.(w_visited) (st.(w_used) ++ flat_map (fun a => value_vars a.(a_value)) args ++ dirs_vars dirs) in
            let '(ev_sels, st2) := wsels next sels st1 in
-           (ev_args ++ walk_directives dirs (b "FIELD") ++ ev_sels ++ [EvField sel parent fd], st2)
+           (EvAnnotate p.(p_start) :: ev_args ++ walk_directives dirs (b "FIELD") ++ ev_sels ++ [EvField sel parent fd], st2)
          | SInline tc dirs sels p =>
            let next := match tc with [] => parent | _ => stype s tc end in
            let st1 := mkWst st.(w_visited) (st.(w_used) ++ dirs_vars dirs) in
@@ -146,7 +149,7 @@ Section Walk.
                                 x.(f_sels) ([], mkWst (x.(f_name) :: st1.(w_visited)) st1.(w_used))
                | None => ([], st1)
                end in
-           (walk_directives dirs (b "FRAGMENT_SPREAD") ++ ev_body ++ [EvSpread sel parent], st2)
+           (EvAnnotate p.(p_start) :: walk_directives dirs (b "FRAGMENT_SPREAD") ++ ev_body ++ [EvSpread sel parent], st2)
          end) parent sel st
     end.
 
